@@ -35,9 +35,12 @@ restore = None
 if r.returncode:
     # the seeds were written against an earlier /repo HEAD (before later fix: commits): fall back to it
     restore = sh(f"git -C {a.wt} rev-parse HEAD").stdout.strip()
-    sh(f"git -C {a.wt} checkout -q --detach 465838f")
-    r = sh(f"git -C {a.wt} apply {os.path.abspath(a.patch)}")
-    print("(patch applied on base 465838f)")
+    for base in ("c8743b4", "465838f"):
+        sh(f"git -C {a.wt} checkout -q --detach {base}")
+        r = sh(f"git -C {a.wt} apply {os.path.abspath(a.patch)}")
+        if not r.returncode:
+            print(f"(patch applied on base {base})")
+            break
 if r.returncode:
     print("patch does not apply:", r.stderr)
     sys.exit(2)
